@@ -358,6 +358,14 @@ class Table:
                 return [([], some_arm(a0.a[2][0]) if a0.a[1] == "Some" else none_arm(), (), ())]
             key = self._raw(a0)
             return [([("is", key, "Some")], some_arm(Val("place", key + "@Some.0")), (), ()), ([("is", key, "None")], none_arm(), (), ())]
+        # Option::unwrap_or_else(opt, f) / Option::unwrap_or(opt, d): the payload when there is one, else what the fallback gives
+        if nm.startswith("core::option::Option::") and short in ("unwrap_or_else", "unwrap_or") and len(args) == 2:
+            a0, f = args
+            fallback = f if short == "unwrap_or" else Val("call", ("closure", "closure()"))
+            if a0.kind == "agg" and a0.a[1] in ("Some", "None"):
+                return [([], a0.a[2][0] if a0.a[1] == "Some" else fallback, (), ())]
+            key = self._raw(a0)
+            return [([("is", key, "Some")], Val("place", key + "@Some.0"), (), ()), ([("is", key, "None")], fallback, (), ())]
         # small loop-free workspace function / closure
         cb = self.prog.body(nm)
         if short in self.opaque or (self.only is not None and short not in self.only):
